@@ -320,5 +320,7 @@ func init() {
 	register("C05", Rule{"R03a", ruleNoWriteThrough})
 	register("C07", Rule{"R06d", ruleComparatorProvenance}, Rule{"R02e", ruleLayoutIndependentHash})
 	register("C12", Rule{"R07b", ruleOrderedOutput})
+	register("C02", Rule{"R06f", ruleOrderedNamesCache})
+	register("C09", Rule{"S18d", ruleScopeThreading})
 	register("C10", Rule{"R17d", ruleMapMissDeref}, Rule{"R17e", ruleActorRecover}, Rule{"R16d", ruleReentrantWait}, Rule{"R17a", ruleActorNoSelfComm})
 }
